@@ -77,7 +77,9 @@ RnBlock(ss, n) ==
       lb |-> n + 1, rb |-> n + 1 + Len(body.ts) + 1]
 
 Rn(e, n) ==
-  CASE e.k \in {"nil", "bool", "int", "float", "str"} -> Res(<<Tk(e.sp, FALSE)>>, Ann(e, [tk |-> n + 1]))
+  CASE e.k \in {"int", "float"} /\ e.negsp ->        \* sign and magnitude are two tokens; the literal's position is the sign's
+         Res(<<Tk(e.sg, FALSE), Tk(e.mag, FALSE)>>, Ann(e, [tk |-> n + 1]))
+    [] e.k \in {"nil", "bool", "int", "float", "str"} -> Res(<<Tk(e.sp, FALSE)>>, Ann(e, [tk |-> n + 1]))
     [] e.k = "id" -> Res(<<Tk(e.sp, FALSE)>>, Ann(e, [tk |-> n + 1]))
     [] e.k = "none" -> Res(<<>>, e)
     [] e.k = "paren" ->
